@@ -264,7 +264,8 @@ pub struct Op {
     /// NewYuv: 0 = leave v_frame's default padding (128), else seed for padding contents
     pub padseed: u64,
     /// Conv by value: 1 = consume the pooled object, 0 = convert a clone; CloneTo: 1 = clone_from;
-    /// NewYuv: 1 = planes built with Plane::from_slice (tight rows), paddings ignored
+    /// NewYuv: 1 = planes built with Plane::from_slice (tight rows), paddings ignored; 2 = windows
+    /// into larger packed buffers (geo[10..16] = x/y origin per plane)
     pub consume: u64,
 }
 
@@ -847,6 +848,14 @@ impl Gen<'_> {
         // (stride == width, no alignment slack, buffer exactly width*height samples)
         if self.r.pct(25) {
             op.consume = 1;
+        } else if self.r.pct(12) {
+            // a window into a larger packed buffer (origin and size edited through the public
+            // config fields, always consistent with the buffer); geo[10..16] are the origins
+            op.consume = 2;
+            for i in 10..16 {
+                op.geo[i] = self.r.below(9);
+            }
+            op.padseed = self.r.next() | 1;
         }
         op.dataseed = self.r.next();
         op.datamode = match self.r.below(20) {
@@ -1121,6 +1130,13 @@ fn generate_battery(seed: u64, r: &mut Rng) -> RunTrace {
                 op.geo[pl + 3] = ssy;
             }
             op.dataseed = r.next();
+            if r.pct(50) {
+                op.consume = 2;
+                for i in 10..16 {
+                    op.geo[i] = r.below(9);
+                }
+                op.padseed = r.next() | 1;
+            }
             threads[ty as usize].push(op);
             let mut dec = Op::blank(Kind::Conv);
             dec.which = r.below(3) * 2 + ty;
@@ -1426,10 +1442,12 @@ fn shrink_for_miri(op: &mut Op) {
             }
             // v_frame rounds any non-zero x padding up to a 64-byte origin: hundreds of samples per
             // row to initialise and snapshot. Padding is the native engine's business.
-            for i in 10..16 {
-                op.geo[i] = 0;
+            if op.consume != 2 {
+                for i in 10..16 {
+                    op.geo[i] = 0;
+                }
+                op.padseed = 0;
             }
-            op.padseed = 0;
         }
         Kind::NewFloat => {
             if op.geo[1] > 6 || op.geo[2] > 6 {
